@@ -184,8 +184,8 @@ def run(ctx: Ctx, rep: Report, tier: str) -> None:  # noqa: C901
 
     # a dispatch table of (operator, lambda) pairs iterated by the function is written out as the if-chain it denotes
     fwd0, inv0 = ctx.func("Port._items_to_ports"), ctx.func("Port._ports_to_items")
-    fwd = normalised(ctx, fwd0, "unroll,beta")
-    inv = normalised(ctx, inv0, "unroll,beta")
+    fwd = normalised(ctx, fwd0, "dispatch,unroll,beta")
+    inv = normalised(ctx, inv0, "dispatch,unroll,beta")
     orig = {id(fwd): fwd0, id(inv): inv0}  # call-graph edges point at the functions as written
     fparam = fwd.params[1]
     iparam = inv.params[1]
